@@ -38,6 +38,8 @@ pub fn err_name(e: &XErr) -> String {
         XErr::NotJumpTarget { .. } => "NotJumpTarget".into(),
         XErr::NotJumpSource { .. } => "NotJumpSource".into(),
         XErr::StoppedByWatchdog => "StoppedByWatchdog".into(),
+        #[allow(unreachable_patterns)]
+        other => format!("{other:?}").split(|c: char| !c.is_alphanumeric()).next().unwrap_or("?").to_string(),
     }
 }
 
